@@ -264,3 +264,32 @@ def require_verified_reset(ctx, facts, specs, rule):
     if not sub.violations:
         ctx.ok(rule, ", ".join(s_["name"] for s_ in specs), "(constructor, reset) pair(s) verified: reset re-establishes every live mutated field with the constructor's value", "")
     return not sub.violations
+
+
+def require_reset_prefix(ctx, facts, rule="RESET-prefix"):
+    """ProbOrdMinHash2 has no reset method: hash_set must kill everything sketching mutates before it reads it (its nested
+    FYshuffle / MaxValueTracker / OrdMinHashStore resets being verified pairs). Reported under `rule`."""
+    analyzers, verified = {}, {}
+    dummy = type(ctx)(ctx.prop, ctx.tier)
+    ok = True
+    for dep in (FY, MVT, OMS):
+        sub = type(ctx)(ctx.prop, ctx.tier)
+        sub.configs = list(ctx.configs)
+        check_struct(sub, facts, dep, analyzers, verified)
+        verified[dep["path"]] = dep["reset"]
+        for v in sub.violations:
+            ok = False
+            ctx.violation(rule, v["fn"], "reset is not a full reset: " + v["instance"], v["where"], v["message"])
+    an, M, L = check_struct(dummy, facts, POM, analyzers, verified)
+    fid = POM["prefix"] + "hash_set"
+    hs = an.summary("hash_set")
+    fn = an.methods["hash_set"]
+    mutated = {f for f in M if f != "*"}
+    bad = sorted(f for f in hs.live if f in mutated)
+    for f in bad:
+        ok = False
+        ctx.violation(rule, fid, "%s.%s live-in to hash_set" % (POM["name"], f), hirq.loc(fn),
+                      "field %s is mutated by %s but hash_set reads it before fully re-establishing it: a second call on the same instance depends on the first" % (f, M[f][:3]))
+    if ok:
+        ctx.ok(rule, fid, "fields mutated by sketching %s are all killed before use in hash_set (nested resets verified)" % sorted(mutated), hirq.loc(fn))
+    return ok
